@@ -172,7 +172,7 @@ func Check(rec *Record) []Finding {
 		if ar.StreamNil && !ar.CancelIssued && !ar.Err1Nil {
 			switch ended {
 			case "err":
-				if !strings.Contains(ar.Err1, at.Plan.Err.Message) && at.Plan.Kind == "err" {
+				if !strings.Contains(ar.Err1, at.Plan.Err.Message) && strings.HasPrefix(at.Plan.Kind, "err") {
 					add("C06", "master-message-lost", fmt.Sprintf("attempt %d: Error() = %q does not carry the master's message %q", i, clip(ar.Err1, 120), clip(at.Plan.Err.Message, 60)))
 				}
 			case "fin", "rst", "short", "oos":
@@ -288,6 +288,9 @@ func Check(rec *Record) []Finding {
 	}
 
 	// ---- C08: stability ----------------------------------------------------
+	if rec.AliasWithin != "" {
+		add("C08", "values-share-memory", rec.AliasWithin)
+	}
 	for k, d := range rec.Deliveries {
 		if sc.Attempts[d.Attempt].HandlerMode == "scribble" {
 			continue
